@@ -2375,8 +2375,8 @@ def mk_cat(parts) -> Val:
         t = arr_identity(p_) if isinstance(p_, Num) else p_
         if isinstance(t, Term) and t.head == 'cat':
             flat.extend(t.args)
-        elif isinstance(p_, Num) and isinstance(t, Term) and p_.length is not None:
-            flat.append(t)              # an opaque array is named by its term, however it reached the concatenation
+        elif isinstance(p_, Num) and isinstance(t, Term) and p_.length is not None and _len_of(t) is not None and _len_of(t) == p_.length:
+            flat.append(t)              # an opaque array is named by its term, however it reached the concatenation (when the term tells its extent)
         else:
             flat.append(p_)
     return Term('cat', tuple(flat), kind='ndarray')
